@@ -353,10 +353,10 @@ func c04CLI(c *mc.Check, x *c04Ctx) {
 			c.Sample(map[string]any{"box": "nebula-cert", "ca_flags": det["ca_command_flags"], "sign": det["sign_command"], "issued": got.desc()})
 		}
 	}
+	capped := false
 	{
 		var wg sync.WaitGroup
 		sem := make(chan struct{}, workers)
-		capped := false
 		for i, r := range reqs {
 			if c.OutOfTime() {
 				capped = true
@@ -385,7 +385,8 @@ func c04CLI(c *mc.Check, x *c04Ctx) {
 	c.Set("cli_sign_refused", signRefused)
 	c.Set("cli_sign_conforming_refused", conformingRefused)
 	c.Set("cli_refused_for_exactly_this_clause", refusedFor)
-	if c.Violations() == 0 {
+	c.Set("cli_sign_requests_in_box", len(reqs))
+	if c.Violations() == 0 && !capped { // a run cut short by the soft budget proves less but is not a broken harness
 		c.Require(caOK >= int64(len(cas)), "only %d of %d CAs created", caOK, len(cas))
 		c.Require(signOK > 20 && signRefused > 20, "nebula-cert sign: issued=%d refused=%d", signOK, signRefused)
 		c.Require(conformingRefused*10 < signOK+1, "nebula-cert sign refused %d conforming requests (issued %d)", conformingRefused, signOK)
